@@ -108,6 +108,13 @@ def Span.withStepR (s : Span) (step : Int) : R Span :=
 def Span.withStepL (s : Span) (step : Int) : R Span :=
   if step > 0 then throw .badInput else Span.make (some s.start) (some s.stop) step
 
+/-! Operator constructors of `_SpannableMixin` (defined on periods and on the contextual `start`/`end`; `none` is Python's
+`None` on either side, handled by the reflected methods `__rrshift__`/`__rlshift__`): `x >> y` is the forward span from `x`
+to `y`; `x << y` reads as an arrow, "back from `y` to `x`", i.e. `Span(y, x, -1)`.  (The docstring of `Span.__init__` writes
+`end_per << start_per` for `Span(end_per, start_per, -1)`, which is the opposite reading; the code is what is modelled.) -/
+def Span.rshift (x y : Option Endpoint) : R Span := Span.make x y 1
+def Span.lshift (x y : Option Endpoint) : R Span := Span.make y x (-1)
+
 structure Ctx where
   startDate : Period
   endDate : Period
